@@ -105,7 +105,10 @@ def build_jobs(run, recl_default):
     dsb = [rng.randrange(1, 500000) for _ in range(nd)]
     dsh = [rng.randrange(1, 500000) for _ in range(nd)]
     dsc = [rng.randrange(1, 500000) for _ in range(run.n(1, 2))]
-    sd = rng.randrange(0, 2**31)
+    sd = rng.randrange(3, 2**31 - 1)
+    # boundary seeds: the second seed of every history is 0 (falsy!), and 1 and 2**31-1 are targets of their own, so that a
+    # seed that is tested for truth, off by one, or overflows shows as a concrete pair of differing fits
+    s1 = 0
     T = []
     for ds in dsd:
         T.append(fit("daily", ds))
@@ -116,8 +119,11 @@ def build_jobs(run, recl_default):
         T.append(fit("billing", ds))
     for ds in dsh:
         T.append(fit("hourly", ds, "default", sd))
-    T.append(fit("hourly", dsh[0], "default", sd + 1))
-    T.append(fit("hourly", dsh[1], "default", sd + 1))
+    T.append(fit("hourly", dsh[0], "default", s1))
+    T.append(fit("hourly", dsh[1], "default", s1))
+    T.append(fit("hourly", dsh[1], "default", 1))
+    T.append(fit("hourly", dsh[0], "default", 2**31 - 1))
+    T.append(fit("hourly", dsh[0], "randsel", 0))           # ElasticNet(selection="random", random_state=0)
     T.append(fit("hourly", dsh[0], "randsel", sd))
     T.append(fit("hourly", dsh[1], "adaptive", sd))
     T.append(fit("hourly", dsh[0], "silhouette", sd))
@@ -150,7 +156,7 @@ def build_jobs(run, recl_default):
     # reference: every target once, canonical order, one thread
     job("reference", list(T))
     # (i) twice in one process (two processes, to bound the length of one history)
-    TW = list(T) if thorough else rng.sample(T, 8)
+    TW = list(T) if thorough else [fit("hourly", dsh[0], "default", s1)] + rng.sample([t for t in T if t != fit("hourly", dsh[0], "default", s1)], 7)
     half = len(TW) // 2
     for part in (TW[:half], TW[half:]):
         tw = []
@@ -196,24 +202,24 @@ def build_jobs(run, recl_default):
     #      Every deferred fit is a target that is also fitted straight after construction in the reference history.
     A, B = dsh[0], dsh[1]
     p = Prepared()
-    a, b, c = p.new(sd), p.new(sd + 1), p.new(drawn)
+    a, b, c = p.new(sd), p.new(s1), p.new(drawn)
     p.fit(a, A), p.fit(b, A), p.fit(c, A)
     job("prepared-batch", p.ops)
     p = Prepared()
-    a, b, c = p.new(sd), p.new(sd + 1), p.new(d2)
+    a, b, c = p.new(sd), p.new(s1), p.new(d2)
     p.fit(c, B), p.fit(b, B), p.fit(a, B)
     job("prepared-batch", p.ops, threads=8)
     p = Prepared()
     a = p.new(sd)
     u = p.new(None)                                   # a default model in between: its seed is a global draw
     p.fit(a, A)
-    b = p.new(sd + 1)
+    b = p.new(s1)
     p.immediate(fit("hourly", B, "default", sd))      # construct + fit + to_json of another model in between
     p.fit(b, B)
     p.fit(u, A)
     job("prepared-interleaved", p.ops)
     p = Prepared()
-    x = p.new(sd + 1)
+    x = p.new(s1)
     p.fit(x, A)
     a = p.new(sd)
     p.tojson(x)                                       # construct / to_json(other) / fit
@@ -223,7 +229,7 @@ def build_jobs(run, recl_default):
     p.fit(b, B)
     u = p.new(None)
     p.fit(u, B)
-    c = p.new(sd + 1)
+    c = p.new(s1)
     p.tojson(u)                                       # to_json of an UNSEEDED fitted model re-draws its seed
     p.fit(c, B)
     job("prepared-interleaved", p.ops)
@@ -254,14 +260,14 @@ def build_jobs(run, recl_default):
         job("refit-after-other", p.ops, threads=8)
         for j in range(4):
             p = Prepared()
-            seeds = [sd, sd + 1, sd + 2, None, drawn]
+            seeds = [sd, s1, sd + 2, None, drawn]
             rng.shuffle(seeds)
             ks = [p.new(z, "randsel" if (z == sd + 2) else "default") for z in seeds]
             order = list(range(len(ks)))
             rng.shuffle(order)
             for i in order:
                 z = seeds[i]
-                ds = dsh[2] if z == sd + 2 else (A if z == drawn else rng.choice([A, B]) if z in (sd, sd + 1) else A)
+                ds = dsh[2] if z == sd + 2 else (A if z == drawn else rng.choice([A, B]) if z in (sd, s1) else A)
                 p.fit(ks[i], ds)
             job("prepared-batch", p.ops, threads=(1, 8)[j % 2])
     # (iv) alone in a fresh process
@@ -408,6 +414,12 @@ def classify_difference(obs):
     key = lambda x: (x[1]["threads"], str(x[1].get("hashseed") or "0") != "0", x[0], x[2])
     base = min(obs, key=key)
     out = {}
+    # the plainest witness first: two executions in ONE process (same pool size, same salt, same everything) that differ
+    byjob = {}
+    for o in sorted(obs, key=key):
+        first = byjob.setdefault(o[0], o)
+        if first[3] != o[3]:
+            out.setdefault("same-process", (first, o))
     salt = lambda j: str(j.get("hashseed") or "0")
     for o in sorted(obs, key=key):
         if o[3] != base[3]:
